@@ -486,6 +486,11 @@ structure Num (N : Type) where
   ofInt : Int → N
   /-- `fmt.Sprint(x)` -/
   text : N → Str
+  /-- x is finite and its truncation lies in the int64 range (where `int64(x)` is defined by Go) -/
+  inInt64 : N → Bool
+  /-- the remainder of the truncated operands computed without the int64 detour (`none`: an operand
+      is NaN / infinite, or the divisor truncates to 0): what `%` means outside the int64 range -/
+  wideMod : N → N → Option N
 
 /-- what evaluation needs besides the tree -/
 structure Cfg (N : Type) where
@@ -779,9 +784,16 @@ def binSem (G : Cfg N) (o : BinOp) (n1 n2 : Str) (v1 v2 : Val N) : Out N :=
   -- `//` : floor of the quotient
   | .divint => arith (fun a b => .val (.num (C.floor (C.div a b)))) n1 n2 v1 v2
   -- `%` : remainder of the operands truncated to integers; a zero divisor is an error
+  -- `%` : remainder of the operands truncated to integers; a zero divisor is an error. Inside the
+  -- int64 range this is `Int.tmod` on `int64(x)`; outside it the code's result is whatever the
+  -- platform's conversion gives (known finding `mod-out-of-int64-range`), the reference is `wideMod`
   | .modint => arith (fun a b =>
-      if C.toInt b = 0 then .err .runtime [] none
-      else .val (.num (C.ofInt (Int.tmod (C.toInt a) (C.toInt b))))) n1 n2 v1 v2
+      if C.inInt64 a && C.inInt64 b then
+        (if C.toInt b = 0 then .err .runtime [] none
+         else .val (.num (C.ofInt (Int.tmod (C.toInt a) (C.toInt b)))))
+      else match C.wideMod a b with
+        | some r => .val (.num r)
+        | none => .err .runtime [] none) n1 n2 v1 v2
   | .geq => compare C (fun a b => C.le b a) (fun a b => !strLt a b) v1 v2
   | .gt => compare C (fun a b => C.lt b a) (fun a b => strLt b a) v1 v2
   | .leq => compare C (fun a b => C.le a b) (fun a b => !strLt b a) v1 v2
@@ -838,6 +850,23 @@ def evalItems (G : Cfg N) : Items → Except (ErrKind × Str × Option Nat) (Val
       (match evalItems G rest with
        | .ok vs => .ok (.cons v vs)
        | .error x => .error x)
+end
+
+mutual
+/-- every `%` in the tree is applied (per the reference evaluation) to operands inside the int64
+    range, or to operands that are not both numbers -/
+def modInRange (G : Cfg N) : Expr → Bool
+  | .atom _ => true
+  | .list its => modInRangeItems G its
+  | .bin o _ l r =>
+    modInRange G l && modInRange G r &&
+    (match o, eval G l, eval G r with
+     | .modint, .val (.num a), .val (.num b) => G.C.inInt64 a && G.C.inInt64 b
+     | _, _, _ => true)
+  | .pre _ _ x => modInRange G x
+def modInRangeItems (G : Cfg N) : Items → Bool
+  | .nil => true
+  | .cons e rest => modInRange G e && modInRangeItems G rest
 end
 
 end Spec
